@@ -361,3 +361,42 @@ cfb8_case!(t_cfb8_enc_b16_l18_oneshot, 48, Encryptor, enc, true, U16, 16, U1, 18
 cfb8_case!(t_cfb8_dec_b16_l18_oneshot, 48, Decryptor, dec, false, U16, 16, U1, 18, ONESHOT);
 ofb_case!(t_ofb_enc_b5_w2_n3, 40, U5, 5, U2, 15, F_ENC);
 ofb_case!(t_ofb_bytes_b7_w3_l17, 40, U7, 7, U3, 17, F_BYTES);
+
+/// Longer single call of CFB-8 with the cheap concrete cipher `Lin` (symbolic key, IV and
+/// data): every output byte equals the shift-register recurrence.
+macro_rules! cfb8_long_case {
+    ($name:ident, $unw:expr, $ty:ident, $dir:ident, $enc:expr, $bs:ty, $b:expr, $l:expr, $how:expr) => {
+        #[kani::proof]
+        #[kani::unwind($unw)]
+        pub fn $name() {
+            const B: usize = $b;
+            const L: usize = $l;
+            let iv: [u8; B] = kani::any();
+            let input: [u8; L] = kani::any();
+            let key: [u8; 2] = kani::any();
+            let c = Lin::<$bs, U1>::with_key(key);
+            let mut m = cfb8::$ty::inner_iv_init(c, blk::<$bs>(&iv));
+            let mut buf = input;
+            let mut out = [0xa5u8; L];
+            if $how == MULTI {
+                do_blocks!($dir, m, blocks_mut::<U1>(&mut buf));
+            } else if $how == ONESHOT {
+                do_oneshot!($dir, m, &mut buf[..]);
+            } else {
+                let r = do_oneshot_b2b!($dir, m, &input[..], &mut out[..]);
+                assert!(r.is_ok());
+                buf = out;
+            }
+            // recurrence: the register's first byte at step j is ciphertext byte j-B (IV before)
+            let mut j = 0;
+            while j < L {
+                let s0 = if j < B { iv[j] } else if $enc { buf[j - B] } else { input[j - B] };
+                let want = input[j] ^ lin_byte(key, s0);
+                assert!(buf[j] == want, "CFB-8 long call: output differs from the shift-register recurrence");
+                j += 1;
+            }
+            kani::cover!(true);
+        }
+    };
+}
+cfb8_long_case!(cfb8_enc_long_b2_l64_oneshot, 80, Encryptor, enc, true, U2, 2, 64, ONESHOT);
